@@ -19,7 +19,7 @@ N     == Len(Cases)
 V(ok, clause, b, obs, exp) ==
     IF ok THEN << >> ELSE << [clause |-> clause, b |-> b, obs |-> ToJson(obs), exp |-> ToJson(exp)] >>
 
-SeqOf(S, F(_)) == LET ss == SortedSeq(S) IN Cat([i \in 1..Len(ss) |-> F(ss[i])])
+ForEach(S, F(_)) == LET ss == SortedSeq(S) IN Cat([i \in 1..Len(ss) |-> F(ss[i])])
 
 Field(recs, nm)   == [i \in 1..Len(recs) |-> recs[i][nm]]
 ById(recs, id)    == recs[CHOOSE i \in 1..Len(recs) : recs[i].id = id]
@@ -44,7 +44,7 @@ Violations(c) ==
        V(obsIds = G.retained, "c04.retained", -1, SortedSeq(obsIds), SortedSeq(G.retained))
     \o V(Len(O.bbs) = Cardinality(obsIds), "c04.duplicate-block", -1, Field(O.bbs, "id"), "distinct ids")
     \o V(Field(O.bbs, "id") = SortedSeq(obsIds), "c04.block-order", -1, Field(O.bbs, "id"), "ascending ids")
-    \o SeqOf(common, LAMBDA b :
+    \o ForEach(common, LAMBDA b :
             LET ob == ById(O.bbs, b) IN
                V(ob.lines = BlockLines(G, b), "c04.lines", b, ob.lines, BlockLines(G, b))
             \o V(ob.next = G.succ[b], "c04.next", b, ob.next, G.succ[b])
@@ -58,7 +58,7 @@ Violations(c) ==
          "c05.subroutines", -1, Field(O.subs, "name"), G.subNames)
     \o V(O.main.entry = 0 /\ O.main.blocks = SortedSeq(G.mainBlocks), "c05.main", -1, O.main.blocks,
          SortedSeq(G.mainBlocks))
-    \o SeqOf({ i \in 1..Len(O.subs) : O.subs[i].name \in G.subNames }, LAMBDA i :
+    \o ForEach({ i \in 1..Len(O.subs) : O.subs[i].name \in G.subNames }, LAMBDA i :
             LET os == O.subs[i]
                 nm == os.name
                 S  == G.subBlocks[nm]
@@ -71,21 +71,21 @@ Violations(c) ==
             \o V(os.callers = Callers(G, P, nm), "c05.callers", G.subEntry[nm], os.callers, Callers(G, P, nm))
             \o V(os.retpts = RetPoints(G, P, nm), "c05.return-points", G.subEntry[nm], os.retpts,
                  RetPoints(G, P, nm)))
-    \o SeqOf(common, LAMBDA b :
+    \o ForEach(common, LAMBDA b :
             LET ob == ById(O.bbs, b) IN
             IF b \in calls
             THEN V(ob.iscall /\ ob.callee = Callee(G, P, b) /\ ob.retpt = ReturnPoint(G, b), "c05.call-site", b,
                    << ob.iscall, ob.callee, ob.retpt >>, << TRUE, Callee(G, P, b), ReturnPoint(G, b) >>)
             ELSE V(~ob.iscall, "c05.call-site", b, << ob.iscall >>, << FALSE >>))
     \o (IF Structured(G)
-        THEN SeqOf(common, LAMBDA b :
+        THEN ForEach(common, LAMBDA b :
                 V(ById(O.bbs, b).sub = region(b), "c05.membership", b, ById(O.bbs, b).sub, region(b)))
         ELSE << >>)
     (* ---- function built for dispatch path [B0]: same graph, shared subroutines (C12, C05 tables) ---- *)
     \o V(fIds = fblocks /\ Len(O.fblocks) = Cardinality(fIds), "c12.blocks", -1, Field(O.fblocks, "id"),
          SortedSeq(fblocks))
     \o V(O.fentry = 0, "c12.entry", -1, O.fentry, 0)
-    \o SeqOf(fIds \cap fblocks, LAMBDA b :
+    \o ForEach(fIds \cap fblocks, LAMBDA b :
             LET ob == ById(O.fblocks, b) IN
                V(ob.lines = BlockLines(G, b), "c12.lines", b, ob.lines, BlockLines(G, b))
             \o V(ob.next = G.succ[b], "c12.next", b, ob.next, G.succ[b])
@@ -96,7 +96,7 @@ Violations(c) ==
                 ELSE << >>))
     \o V(SeqToSet(Field(O.fsubs, "name")) = used, "c05.function-subroutines", -1, Field(O.fsubs, "name"),
          used)
-    \o SeqOf({ i \in 1..Len(O.fsubs) : O.fsubs[i].name \in used }, LAMBDA i :
+    \o ForEach({ i \in 1..Len(O.fsubs) : O.fsubs[i].name \in used }, LAMBDA i :
             LET fs == O.fsubs[i]
                 cs == { b \in fblocks : IsCallBlock(G, P, b) /\ Callee(G, P, b) = fs.name }
                 rs == { ReturnPoint(G, b) : b \in { x \in cs : ReturnPoint(G, x) # -1 } }
